@@ -40,6 +40,12 @@ def cases(tier, seed):
             for off in ('+d', '-d', '+2h'):
                 for lam in ('iso',):
                     out.append(dict(kind='inv', m=m, n=n, geom=geom, offset=off, lam=lam, seed=seed))
+    # total mass of unrestrained flat bays whose skin strips differ in thickness / density (relying on the bay defaults otherwise)
+    import itertools
+    for ncut, how, stiff in itertools.product([0, 1, 2, 3], ['same', 'plyt', 'plyts', 'mu', 'stack'], ['none', 'b2d_f', 't2d']):
+        if stiff != 'none' and ncut == 0:
+            continue
+        out.append(dict(kind='baymass', ncut=ncut, how=how, stiff=stiff, seed=seed))
     return out
 
 
@@ -138,6 +144,56 @@ def check_lat(case):
     return dict(fails=fails, execs=execs, transitions=len(case['lp']), max_ratio=ratio if not fails else 0.0, nontrivial=1 if case['lp'] else 0)
 
 
+def check_baymass(case):
+    """c^T kM c for a unit rigid translation of an unrestrained flat bay = sum over skin strips of mu_i h_i a (y2_i - y1_i)
+    (+ mu h area of each stiffener plate for the translation along the bay axis, which moves skin and stiffeners alike when their
+    own amplitudes describe the same translation)."""
+    from compmech.stiffpanelbay import StiffPanelBay
+    fails = []
+    spb = StiffPanelBay()
+    spb.a, spb.b, spb.m, spb.n = 0.8, 0.5, 4, 4
+    spb.stack, spb.plyt, spb.laminaprop, spb.mu = [0., 90., 90., 0.], pan.PLYT, pan.M6, 1500.
+    for d in 'uvw':
+        for e in '12':
+            for t in 'tr':
+                for ax in 'xy':
+                    setattr(spb, d + e + t + ax, 1.0)
+    cuts = [0.2, 0.5, 0.8][:case['ncut']]
+    ys = [0.0] + [c * spb.b for c in cuts] + [spb.b]
+    expected = 0.0
+    for k, (y1, y2) in enumerate(zip(ys[:-1], ys[1:])):
+        kw, h, mu = {}, 4 * pan.PLYT, 1500.
+        if k and case['how'] == 'plyt':
+            kw = dict(plyt=pan.PLYT * (1 + 0.5 * k)); h = 4 * pan.PLYT * (1 + 0.5 * k)
+        elif k and case['how'] == 'plyts':
+            kw = dict(plyts=[pan.PLYT * (1 + 0.25 * k * (i + 1)) for i in range(4)]); h = sum(kw['plyts'])
+        elif k and case['how'] == 'mu':
+            kw = dict(mu=1500. + 700. * k); mu = kw['mu']
+        elif k and case['how'] == 'stack':
+            kw = dict(stack=[0., 90.] * (k + 1)); h = 2 * (k + 1) * pan.PLYT
+        spb.add_panel(y1=y1, y2=y2, **kw)
+        expected += mu * h * spb.a * (y2 - y1)
+    nskin = 3 * spb.m * spb.n
+    if case['stiff'] == 'b2d_f':
+        spb.add_bladestiff2d(ys=ys[1], mu=1300., mf=3, nf=3, bf=0.03, fstack=[0., 90., 0.], fplyt=pan.PLYT, flaminaprop=pan.M6)
+    elif case['stiff'] == 't2d':
+        spb.add_tstiff2d(ys=ys[1], mu=1300., mf=3, nf=3, mb=3, nb=3, bf=0.03, fstack=[0., 90., 0.], fplyt=pan.PLYT, flaminaprop=pan.M6,
+                         bb=0.06, bstack=[0., 90.], bplyt=pan.PLYT, blaminaprop=pan.M6)
+    spb.calc_k0(silent=True)
+    M = pan.dense(spb.calc_kM(silent=True))
+    Ms = M[:nskin, :nskin]
+    for k in range(3):
+        cvec = np.zeros(nskin)
+        for j in (0, 2):
+            for i in (0, 2):
+                cvec[3 * (j * spb.m + i) + k] = 1.0
+        q = cvec.dot(Ms).dot(cvec)
+        if abs(q - expected) > 1e-11 * expected:
+            fails.append(fail('rigid unit translation of the bay skin does not carry the mass of the skin strips (sum of mu*h*area)', sig=None,
+                              case=case, dof='uvw'[k], got=float(q), expected=float(expected)))
+    return dict(fails=fails, execs=2, transitions=1, nontrivial=1)
+
+
 def check_inv(case):
     """Edge d=0 -> d: lowest elastic frequencies of an unrestrained homogeneous panel must not move.
     A thick small panel is used so that the generalized eigenproblem is well conditioned."""
@@ -174,7 +230,7 @@ def check_inv(case):
 
 
 def check_case(case):
-    return check_lat(case) if case['kind'] == 'lat' else check_inv(case)
+    return dict(lat=check_lat, inv=check_inv, baymass=check_baymass)[case['kind']](case)
 
 
 def summarize(results, tier, seed):
